@@ -44,6 +44,45 @@ pub fn compare(bytes: &[u8], label: &str, r: &mut Report, rp: &dyn Fn() -> Json,
             return None;
         }
     };
+    // the same fault through the loader: a parse error is reported as that parse error unless one of the
+    // instructions delivered before it already made the loader object (a consumer error raised anywhere else -
+    // e.g. at a finalize that must not happen - would hide which instruction is malformed)
+    if let Err(pe) = &p.result {
+        if !matches!(pe, rspirv::binary::ParseState::ConsumerError(_) | rspirv::binary::ParseState::ConsumerStopRequested) {
+            if let Ok(lr) = crate::util::catch(|| rspirv::dr::load_bytes(bytes)) {
+                match lr {
+                    Ok(_) => {
+                        fail(r, "loader-accepts-after-parse-error".into(), format!("parse_bytes reports {:?}, load_bytes returns a module", pe));
+                        return None;
+                    }
+                    Err(rspirv::binary::ParseState::ConsumerError(ce)) => {
+                        use rspirv::binary::Consumer;
+                        let mut l = rspirv::dr::Loader::new();
+                        let mut objected = !matches!(l.initialize(), rspirv::binary::ParseAction::Continue);
+                        if let Some(h) = &p.rec.header {
+                            objected |= !matches!(l.consume_header(h.clone()), rspirv::binary::ParseAction::Continue);
+                        }
+                        for i in &p.rec.insts {
+                            if objected {
+                                break;
+                            }
+                            objected |= !matches!(l.consume_instruction(i.clone()), rspirv::binary::ParseAction::Continue);
+                        }
+                        if !objected {
+                            fail(r, "loader-error-hides-parse-error".into(), format!("parse_bytes reports {:?}; load_bytes reports the consumer error `{}` although the loader accepts every instruction delivered before the fault", pe, ce));
+                            return None;
+                        }
+                    }
+                    Err(le) => {
+                        if rs::state_name(&le) != rs::state_name(pe) {
+                            fail(r, "loader-reports-other-parse-error".into(), format!("parse_bytes reports {:?}, load_bytes reports {:?}", pe, le));
+                            return None;
+                        }
+                    }
+                }
+            }
+        }
+    }
     // protocol shape of the recording (details are C14's business)
     // header
     match (&reference.header, &p.rec.header) {
